@@ -109,8 +109,10 @@ def as_verdict(desc):
         mir = [[x, -y, z] for x, y, z in locs]
         fl.update(point_masses=desc["masses"][:nm] * 2, point_mass_locations=locs + mir, engine_thrusts=desc["thrust"][:nm] * 2)
     sf = _as_surface(desc, full, False, 2 * nm)
+    from oasv.models import run_coupled
+
     pf = aerostruct_problem([sf], fl, compressible=desc["compressible"])
-    pf.run_model()
+    run_coupled(pf)
     A = "AS_point_0."
     if float(pf.get_val(A + "CL")[0]) < 1e-3:
         from oasv.core import Discard
